@@ -1,4 +1,144 @@
-import KpModel.Format.Kdbx4
+import KpModel.Format.Kdbx4Lemmas
+/-!
+# C01 — opening a well-formed KDBX4 file yields exactly the stored content (container part)
+Property theorems only.  Model: `KpModel/Format/Kdbx4.lean` (`decrypt` is the faithful transcription of
+`decrypt_kdbx4`; `build` is the family of all conforming layouts; tied to the code by the correspondence op
+`kdbx4read` on files of an independent builder and of the real `save`).
+The XML part (event stream → object model) is modelled in `KpModel/Xml/Parse.lean` and tied by the op `xml`.
+-/
 namespace Kp.Fmt
-theorem placeholder_C01 : True := trivial
+
+/-- side conditions a conforming writer satisfies (all decidable for a concrete file) -/
+structure Conforming (c : Config) (t : Tape) (l : Layout) (atts : List (UInt8 × Bytes)) (ct : Bytes) : Prop where
+  header : HeaderOk c t l
+  kdfSeed32 : ∀ r, c.kdf = .aes r → t.kdfSeed.length = 32      -- the AES-KDF seed is an AES-256 key
+  innerKey : t.innerKey.length < 4294967296
+  salsaKey : c.inner = .salsa20 → t.innerKey.length = 32
+  atts : attOk atts
+  partition : (l.blocks ct).flatten = ct
+  blocks : ∀ b ∈ l.blocks ct, b ≠ [] ∧ b.length < 4294967296
+
+theorem slice_mid (site : String) (a b c : Bytes) :
+    slice site (a ++ b ++ c) a.length (a.length + b.length) = .ok b := by
+  unfold slice
+  have : a.length ≤ a.length + b.length ∧ a.length + b.length ≤ (a ++ b ++ c).length := by
+    simp only [List.length_append]; omega
+  simp only [this, and_self, ↓reduceIte]
+  rw [List.append_assoc, List.drop_left' rfl, Nat.add_sub_cancel_left, List.take_left' rfl]
+
+/-- **Framing theorem.**  For every primitive family satisfying the laws, every configuration, every draw of
+    the random values, every conforming layout (any order of the outer header fields with comment fields
+    anywhere, any order of the KDF dictionary, any end-of-header payload, any partition of the ciphertext
+    into non-empty blocks, attachments before or after the stream id and key), every list of
+    attachments and every inner XML document: the faithful reader returns exactly the stored
+    configuration, attachments, inner key and XML bytes. -/
+theorem C01_framing (P : Prims) (L : P.Laws) (c : Config) (t : Tape) (l : Layout)
+    (atts : List (UInt8 × Bytes)) (xml composite tk ct : Bytes)
+    (htk : transformedKey P c.kdf t.kdfSeed composite = some tk)
+    (hct : P.encO c.outer (P.sha256 (t.masterSeed ++ tk)) t.iv (plainPayload P c t atts l.attachmentsFirst xml) = some ct)
+    (C : Conforming c t l atts ct) :
+    decrypt P (assemble P c t l tk ct) (some composite) = .ok ⟨c, atts, t.innerKey, xml⟩ := by
+  have hshaL : (P.sha256 (outerHeaderBytes c t l)).length = 32 := L.sha256_len _
+  have hmacL : (P.hmac256 (blockKey P (P.sha512 (t.masterSeed ++ tk ++ [1])) u64Max) (outerHeaderBytes c t l)).length = 32 :=
+    L.hmac_len _ _
+  unfold decrypt assemble
+  generalize hH : outerHeaderBytes c t l = header at *
+  generalize hS : P.sha256 header = sha at *
+  generalize hK : P.sha512 (t.masterSeed ++ tk ++ [1]) = hmacKey at *
+  generalize hM : P.hmac256 (blockKey P hmacKey u64Max) header = mac at *
+  generalize hW : writeBlocksFrom P hmacKey 0 (l.blocks ct) = stream at *
+  have hp : parseOuterHeader (header ++ sha ++ mac ++ stream)
+      = .ok (⟨c.minor, c.outer, c.compression, t.masterSeed, t.iv, c.kdf, t.kdfSeed⟩, header.length) := by
+    have := parseOuterHeader_build c t l C.header (sha ++ mac ++ stream)
+    rw [hH] at this
+    simpa [List.append_assoc] using this
+  simp only [bind, Outcome.bind, hp]
+  -- the four slices
+  have s1 : slice "decrypt_kdbx4:index" (header ++ sha ++ mac ++ stream) 0 header.length = .ok header := by
+    have := slice_mid "decrypt_kdbx4:index" [] header (sha ++ mac ++ stream)
+    simpa [List.append_assoc] using this
+  have s2 : slice "decrypt_kdbx4:index" (header ++ sha ++ mac ++ stream) header.length (header.length + 32) = .ok sha := by
+    have := slice_mid "decrypt_kdbx4:index" header sha (mac ++ stream)
+    rw [hshaL] at this
+    simpa [List.append_assoc] using this
+  have s3 : slice "decrypt_kdbx4:index" (header ++ sha ++ mac ++ stream) (header.length + 32) (header.length + 64) = .ok mac := by
+    have := slice_mid "decrypt_kdbx4:index" (header ++ sha) mac stream
+    simp only [List.length_append, hshaL, hmacL] at this
+    have e : header.length + 32 + 32 = header.length + 64 := by omega
+    rw [e] at this
+    exact this
+  have s4 : slice "decrypt_kdbx4:index" (header ++ sha ++ mac ++ stream) (header.length + 64)
+      (header ++ sha ++ mac ++ stream).length = .ok stream := by
+    unfold slice
+    have : header.length + 64 ≤ (header ++ sha ++ mac ++ stream).length
+        ∧ (header ++ sha ++ mac ++ stream).length ≤ (header ++ sha ++ mac ++ stream).length := by
+      simp only [List.length_append, hshaL, hmacL]; omega
+    simp only [this, and_self, ↓reduceIte]
+    have hl : (header ++ sha ++ mac).length = header.length + 64 := by
+      simp only [List.length_append, hshaL, hmacL]
+    rw [List.drop_left' hl]
+    simp only [List.length_append, hshaL, hmacL]
+    have : header.length + 32 + 32 + stream.length - (header.length + 64) = stream.length := by omega
+    rw [this, List.take_length]
+  simp only [s1, s2, s3, s4]
+  have hne : (sha != P.sha256 header) = false := by simp [hS]
+  simp only [hne, Bool.false_eq_true, ↓reduceIte]
+  -- KDF
+  have hkdf : runKdf P c.kdf t.kdfSeed composite = .ok tk := by
+    cases hk : c.kdf with
+    | aes r =>
+      rw [hk] at htk; simp only [transformedKey] at htk; injection htk with htk
+      have := C.kdfSeed32 r hk
+      simp [runKdf, this, htk]
+    | argon2 id it mem par ver =>
+      rw [hk] at htk; simp only [transformedKey] at htk
+      simp [runKdf, htk]
+  simp only [hkdf, hK]
+  have hne2 : (mac != P.hmac256 (blockKey P hmacKey u64Max) header) = false := by simp [hM]
+  simp only [hne2, Bool.false_eq_true, ↓reduceIte]
+  -- blocks
+  have hrb : readBlocks P hmacKey (stream.length + 1) stream 0 [] = .ok ct := by
+    have := readBlocks_write P L hmacKey (l.blocks ct) C.blocks (stream.length + 1) 0 [] []
+      (by rw [← hW]; exact writeBlocks_len P hmacKey (l.blocks ct) 0)
+    simp only [List.append_nil, List.nil_append, C.partition] at this
+    rw [hW] at this
+    exact this
+  simp only [hrb]
+  -- cipher and compression
+  have hdec := L.dec_enc _ _ _ _ _ hct
+  simp only [hdec]
+  have hpayload : (if c.compression = true then P.gunzip (plainPayload P c t atts l.attachmentsFirst xml)
+      else some (plainPayload P c t atts l.attachmentsFirst xml))
+      = some (innerHeaderBytes c t atts l.attachmentsFirst ++ xml) := by
+    unfold plainPayload
+    cases c.compression <;> simp [L.gunzip_gzip]
+  simp only [hpayload]
+  -- inner header
+  rw [innerLoop_header c t atts l.attachmentsFirst xml C.innerKey C.atts]
+  simp only
+  have hs : ¬ (c.inner = InnerCipher.salsa20 ∧ t.innerKey.length ≠ 32) := by
+    intro ⟨h1, h2⟩; exact h2 (C.salsaKey h1)
+  simp only [hs, ↓reduceIte, List.drop_left' rfl]
+
+/-- the same statement phrased on `build` -/
+theorem C01_framing_build (P : Prims) (L : P.Laws) (c : Config) (t : Tape) (l : Layout)
+    (atts : List (UInt8 × Bytes)) (xml composite file : Bytes)
+    (hb : build P c t l atts xml composite = some file)
+    (C : ∀ ct, Conforming c t l atts ct) :
+    decrypt P file (some composite) = .ok ⟨c, atts, t.innerKey, xml⟩ := by
+  unfold build at hb
+  cases htk : transformedKey P c.kdf t.kdfSeed composite with
+  | none => rw [htk] at hb; cases hb
+  | some tk =>
+    rw [htk] at hb
+    simp only at hb
+    cases hct : P.encO c.outer (P.sha256 (t.masterSeed ++ tk)) t.iv (plainPayload P c t atts l.attachmentsFirst xml) with
+    | none => rw [hct] at hb; cases hb
+    | some ct =>
+      rw [hct] at hb
+      simp only at hb
+      injection hb with hb
+      rw [← hb]
+      exact C01_framing P L c t l atts xml composite tk ct htk hct (C ct)
+
 end Kp.Fmt
